@@ -298,6 +298,12 @@ var c12xTemplates = []c12xf{
 		[]string{"GT = {}\nfunction GT:ba\x01(x) return x end\nfunction GT.fo\x02(x) return x end\n",
 			"GT:ba\x01(2)\nGT.fo\x02(1)\nlocal k = GT\nk:ba\x01(3)\n"},
 		[][4]int{{1, 1, 3, 3}, {1, 2, 3, 3}, {0, 2, 12, 3}, {0, 3, 12, 3}}},
+	// the table is declared in one file, its members in another, both are used in a third
+	{[]string{"tbl.lua", "net.lua", "use.lua"},
+		[]string{"GT = {}\n",
+			"function GT.ba\x01(x) return x end\nfunction GT:ki\x02(y) end\nGT.ba\x01(1)\n",
+			"GT.ba\x01(2)\nGT:ki\x02(3)\n"},
+		[][4]int{{1, 1, 12, 3}, {1, 2, 12, 3}, {1, 3, 3, 3}, {2, 1, 3, 3}, {2, 2, 3, 3}}},
 }
 
 func VerifRun_C12d() {
